@@ -90,6 +90,13 @@ def pair_results(ctx, ops, out, meta, label):
             continue
         info = pairs[pi] if pi < len(pairs) else {}
         pi += 1
+        if info.get("witness"):
+            # executed witness (cross-target pair): Lean model outputs, not a checker pair
+            f = dict(x.split("=", 1) for x in b.split(";") if "=" in x)
+            ctx.coverage["inexact_witness_executed"] = {
+                "what": "uint7 a/b, a%b on a=127, b=13: real Yao and GMW circuits evaluated by the compiled Lean model",
+                "lean_model_yao": f.get("c"), "lean_model_gmw": f.get("c2"), "differ": f.get("c") != f.get("c2")}
+            continue
         verdict = b.split(";", 1)[0].replace("chk=", "")
         res.append((parts[2], verdict, info))
         if info.get("gates2", 0) > 0 and info.get("gates") != info.get("gates2"):
@@ -208,5 +215,7 @@ def run(ctx):
         "(= prune on), and prune off -> on for each multiplier threshold; a validated pair is equivalent for ALL inputs. "
         "C09_levels / C09_gmw_schedule: Compile's (level, AND-first) sort and the GMW (AND-depth, non-AND-first) schedule "
         "are topological reorderings and leave evaluation unchanged. Oracle: every configuration simulated against the "
-        "base configuration (Yao, no prune, default threshold). Known findings: the GMW-target dividers differ from "
-        "the Yao ones (Goldschmidt inexact; result wires left undriven when result width != operand width).")
+        "base configuration (Yao, no prune, default threshold). Known finding: the GMW-target Goldschmidt divider is "
+        "inexact and differs from the Yao long divider (Lean witness on uint2 a/0; 127/13 executed). Two further "
+        "divider defects found by this check were fixed in /repo (90ed06e, dcb521a) and are now regression-tested "
+        "by the fixed corpus (mod-const, sdiv-const-narrow, udiv-const-operand, rps.mpcl).")
